@@ -442,8 +442,10 @@ def r7_market(ctx, F):
         raise AnchorMissing('job_market functions (found %d)' % len(jm))
     nclear = 0
     for b in jm:
+        takes = [c for c in b.calls_to('mem::take', 'mem::replace') if c.args and
+                 noref(b.trace(b.val(c.args[0]), ('DerefMut::deref_mut', 'Deref::deref'))).fields()[-1:] == ('.job_batches',)]
         for c in b.calls_to('VecDeque::clear', 'Vec::clear', 'Vec::truncate', 'VecDeque::truncate',
-                            'Vec::drain', 'VecDeque::drain'):
+                            'Vec::drain', 'VecDeque::drain') + takes:
             nclear += 1
             in_drop = b.path.startswith('<job_market::JobBroker<Job> as std::ops::Drop>')
             closed = False
